@@ -398,6 +398,20 @@ def _check_against_file(fexp: dict, table: dict, out: list, label: str) -> None:
 # ---------------------------------------------------------------------------
 # one interleaving
 
+def _exports(db) -> dict:
+    """{specifier: text of the 1.3 export} of every installed non-extension lexicon."""
+    import wn
+    out = {}
+    work = env.new_dir('c19x')
+    for lx in wn.lexicons():
+        if lx.extends() is not None:
+            continue
+        f = work / 'x.xml'
+        wn.export([lx], f, version='1.3')
+        out[lx.specifier()] = f.read_text(encoding='utf-8')
+    return out
+
+
 def _run_order(case, order, idx_path: Path, empty_raw: dict, out: list, label: str):
     """Returns the final {id: [status, definition]} map (None if the index was rejected)."""
     import wn
@@ -412,6 +426,7 @@ def _run_order(case, order, idx_path: Path, empty_raw: dict, out: list, label: s
         before = dumps.raw_dump(db.file) or empty_raw
         model = _model(installed)
         obs_before = _mask(observe.observe_all_lexicons(deep=True, expand=None)) if installed else {}
+        exp_before = _exports(db) if installed else {}
         try:
             wn.add(idx_path, progress_handler=None)
         except wn.Error as exc:
@@ -449,6 +464,9 @@ def _run_order(case, order, idx_path: Path, empty_raw: dict, out: list, label: s
             obs_after = _mask(observe.observe_all_lexicons(deep=True, expand=None))
             for p, e, g in diff(obs_before, obs_after)[:5]:
                 out.append(Disc('index-changes-observation', f'{at}{p}', e, g))
+            # "all lexicon content stays the same": also what export writes for each lexicon
+            for p, e, g in diff(exp_before, _exports(db))[:3]:
+                out.append(Disc('index-changes-export', f'{at}{p}', e, g))
             _api_check(model, ta, out, at)
         return True
 
